@@ -75,11 +75,13 @@ class TargetSocket:
 
 def base_scenario(policy=(True, True, True), vendor=1, ptype=14, pcode=55, major=32, minor=11, status=0x3060,
                   serial=0x00C0FFEE, name=b"1756-L83E/B", state=3, ip=0xC0A80164, plc_name=b"PLC_A", time_us=0,
-                  generic=(0x08, (), b"")):
-    return "(base (policy %s %s %s) (identity %d %d %d %d %d %d %d %s %d %d) (name %s) (time %d) (generic %d (%s) %s))" % (
+                  generic=(0x08, (), b""), ids=None):
+    """ids = (first session handle, first connection id) the target grants, when given"""
+    return "(base (policy %s %s %s) (identity %d %d %d %d %d %d %d %s %d %d) (name %s) (time %d) (generic %d (%s) %s)%s)" % (
         "T" if policy[0] else "F", "T" if policy[1] else "F", "T" if policy[2] else "F",
         vendor, ptype, pcode, major, minor, status, serial, sx.hexb(name), state, ip, sx.hexb(plc_name), time_us,
-        generic[0], " ".join(str(x) for x in generic[1]), sx.hexb(generic[2]))
+        generic[0], " ".join(str(x) for x in generic[1]), sx.hexb(generic[2]),
+        " (ids %d %d)" % ids if ids else "")
 
 
 def parse_log(text):
